@@ -27,9 +27,9 @@ static const char SRC[] = "cbynqiuxtfde";
 #define NSRC 12
 static const char TGT[] = "cbynqiuxtlfde";
 #define NTGT 13
-enum { KGeneric, KCreateValue, KValueT, KBasicText, NKIND };
-static const char *kindkey[NKIND] = { "generic", "metatype_create", "metatype_value", "metatype_basic" };
-static const char *kindapi[NKIND] = { "metatype::generic::convert", "metatype::create(value)->convert", "metatype::value<T>::convert", "metatype::basic::convert" };
+enum { KGeneric, KCreateValue, KValueT, KBasicText, KValueDirect, NKIND };
+static const char *kindkey[NKIND] = { "generic", "metatype_create", "metatype_value", "metatype_basic", "value" };
+static const char *kindapi[NKIND] = { "metatype::generic::convert", "metatype::create(value)->convert", "metatype::value<T>::convert", "metatype::basic::convert", "value::convert" };
 
 #define SENT 0xA5
 
@@ -105,15 +105,16 @@ static mpt::metatype *holder_of(const sval &v)
 	memcpy(&x, v.b, sizeof(x));
 	return mpt::metatype::create<T>(x);
 }
-static mpt::metatype *make_holder(int kind, int s, const sval &v, std::string &text)
+/* nulladdr: the value carries no data address, which stands for the zero/default of the type */
+static mpt::metatype *make_holder(int kind, int s, const sval &v, std::string &text, bool nulladdr)
 {
 	switch (kind) {
 	case KGeneric:
 		vf_at("metatype::generic::create");
-		return mpt::metatype::generic::create((mpt::type_t) s, v.b);
+		return mpt::metatype::generic::create((mpt::type_t) s, nulladdr ? 0 : v.b);
 	case KCreateValue: {
 		mpt::value val;
-		if (!val.set(s, v.b)) return 0;
+		if (!val.set(s, nulladdr ? 0 : v.b)) return 0;
 		vf_at("metatype::create(value)");
 		return mpt::metatype::create(val);
 	}
@@ -148,13 +149,20 @@ static mpt::metatype *make_holder(int kind, int s, const sval &v, std::string &t
 	}
 }
 
-static void one_holder(int kind, int s, const sval &v, vf_rng *r)
+static void one_holder(int kind, int s, const sval &v0, vf_rng *r)
 {
 	std::string text;
-	mpt::metatype *mt = make_holder(kind, s, v, text);
+	/* sources without data address: generic holders and plain values only */
+	bool nulladdr = (kind == KGeneric || kind == KCreateValue || kind == KValueDirect) && vf_chance(r, 1, 6);
+	sval v = v0;
+	if (nulladdr) memset(&v, 0, sizeof(v));
+	mpt::metatype *mt = kind == KValueDirect ? 0 : make_holder(kind, s, v, text, nulladdr);
+	mpt::value direct;
 	num n = rd(s, v.b);
 	char ctx[260], nb[80];
-	if (!mt) { vf_count("observe:holder-not-created", 1); return; }
+	if (kind == KValueDirect) { if (!direct.set(s, nulladdr ? 0 : v.b)) return; }
+	else if (!mt) { vf_count("observe:holder-not-created", 1); return; }
+	if (nulladdr) vf_count("eval:null-address-source", 1);
 	int start = (int) vf_below(r, NTGT), ntg = vf_chance(r, 1, 3) ? NTGT : vf_range(r, 1, 6);
 	for (int j = 0; j < ntg; j++) {
 		int t = TGT[(start + j) % NTGT];
@@ -162,17 +170,17 @@ static void one_holder(int kind, int s, const sval &v, vf_rng *r)
 		uint8_t *dest = static_cast<uint8_t *>(vf_xalloc(ds));
 		memset(dest, SENT, ds);
 		vf_at(kindapi[kind]);
-		int rp = mt->convert((mpt::type_t) t, dest);
-		int rq = mt->convert((mpt::type_t) t, 0);
+		int rp = mt ? mt->convert((mpt::type_t) t, dest) : direct.convert((mpt::type_t) t, dest);
+		int rq = mt ? mt->convert((mpt::type_t) t, 0) : direct.convert((mpt::type_t) t, 0);
 		n_conv++; n_query++;
-		snprintf(ctx, sizeof(ctx), "%s: source %c %s%s%s, target '%c'", kindapi[kind], s, numstr(nb, n), text.empty() ? "" : " as text ", text.c_str(), t);
+		snprintf(ctx, sizeof(ctx), "%s: source %c %s%s%s%s, target '%c'", kindapi[kind], s, numstr(nb, n), nulladdr ? " (NULL address)" : "", text.empty() ? "" : " as text ", text.c_str(), t);
 		vf_log("%s -> perform %d, query %d", ctx, rp, rq);
 		VF_CHECK((rp >= 0) == (rq >= 0), c07_key(kindkey[kind], "query-differs"), "%s: with destination %d, without destination %d", ctx, rp, rq);
 		if (rp >= 0) n_accept++; else n_refuse++;
 		c07_judge(kindkey[kind], ctx, n, t, dest, rp, &jst);
 		vf_xfree(dest, ds);
 	}
-	mt->unref();
+	if (mt) mt->unref();
 }
 
 uint64_t vf_cases(void) { return vf_thorough ? 40000 : 3000; }
@@ -185,11 +193,11 @@ void vf_case(uint64_t idx, vf_rng *r)
 	char seq[64] = "";
 	vf_fp_u64(idx);
 	for (int i = 0; i < nh; i++) {
-		int kind = (int) vf_below(r, 10);
-		kind = kind < 4 ? KGeneric : kind < 6 ? KCreateValue : kind < 9 ? KValueT : KBasicText;
+		int kind = (int) vf_below(r, 12);
+		kind = kind < 4 ? KGeneric : kind < 6 ? KCreateValue : kind < 9 ? KValueT : kind < 10 ? KBasicText : KValueDirect;
 		int s = SRC[vf_below(r, NSRC)];
 		sval v = pick_value(s, r);
-		if (i < 20) { seq[i * 2] = "gcvt"[kind]; seq[i * 2 + 1] = (char) s; seq[i * 2 + 2] = 0; }
+		if (i < 20) { seq[i * 2] = "gcvtd"[kind]; seq[i * 2 + 1] = (char) s; seq[i * 2 + 2] = 0; }
 		h = (h ^ (uint64_t) (kind * 256 + s) ^ ((uint64_t) v.b[0] << 16) ^ ((uint64_t) v.b[7] << 24)) * 0x100000001b3ULL;
 		kinds |= 1 << kind; types |= 1 << (s - 'a');
 		one_holder(kind, s, v, r);
@@ -197,7 +205,8 @@ void vf_case(uint64_t idx, vf_rng *r)
 		case KGeneric: vf_count("metatype::generic::convert", 1); break;
 		case KCreateValue: vf_count("metatype::create(value)", 1); break;
 		case KValueT: vf_count("metatype::value<T>::convert", 1); break;
-		default: vf_count("metatype::basic::convert", 1);
+		case KBasicText: vf_count("metatype::basic::convert", 1); break;
+		default: vf_count("value::convert", 1);
 		}
 	}
 	vf_fp_u64(h);
